@@ -334,6 +334,10 @@ def run(ctx):
                 ctx.bad('C07.4-exclusive-writer', inst, 'the connection mutex guard is not held across the awaited send (held=%s, receiver-from-guard=%s): frames of concurrent senders may interleave' % (held, from_guard),
                         ctx.where(Bn, sb), key='LOCK:%s:%s' % (Bn.path, callee_names(st)[0].rsplit('::', 1)[1]))
 
+    ctx.rule('C07.3-complete-writes', 'a frame is written with complete-write primitives only (write_all, write_uN): no partial-write API whose continuation logic could cut or skip bytes of the frame', floor=6)
+    from .c05 import write_discipline
+    write_discipline(ctx, 'C07.3-complete-writes')
+
     # the length prefix is the real length
     ctx.rule('C07.3-prefix-not-truncated', 'the 4-byte length prefix of a frame is the length of what follows: no narrowing cast of a length in the send path without a guard (a frame too long for the prefix is refused)', floor=1)
     from ..families import check_casts
